@@ -166,6 +166,25 @@ func check(c Case) (r pbt.Result) {
 		}
 		return false
 	}
+	// Known finding (storage-routing-unconverged, see C11): where the solver's own constants cannot guarantee
+	// its tolerance the result depends on the index flow carried inside one call (only a solver start value,
+	// not a state), so a split run may differ by more than the tolerance from that step on. Steps before the
+	// first such step are still compared.
+	srFrom := T + 1
+	if name == "StorageRouting" && c.A.Cell[simref.ParamIndex(desc, "InflowBias")][0] == 0 {
+		p := func(n string) float64 { return c.A.Cell[simref.ParamIndex(desc, n)][0] }
+		prevS := st0[0]
+		stor := whole[simref.OutputIndex(desc, "storage")]
+		for t := 0; t < T; t++ {
+			I, L := c.A.Inputs[0][t], c.A.Inputs[1][t]
+			E := math.Min(math.Max(prevS, 0)/p("DeltaT")+I, p("area")*(c.A.Inputs[3][t]-c.A.Inputs[2][t])/p("DeltaT"))
+			if simref.StorageRoutingSolverCanMiss(p("RoutingConstant"), p("RoutingPower"), p("deadStorage"), p("DeltaT"), prevS, I, L, E) {
+				srFrom = t
+				break
+			}
+			prevS = stor[t]
+		}
+	}
 	for k := range whole {
 		scale = maxAbs(whole[k])
 		tol := tolOut
@@ -174,6 +193,12 @@ func check(c Case) (r pbt.Result) {
 		}
 		for t := 0; t < T; t++ {
 			if !same(whole[k][t], seg[k][t], tol) {
+				if t >= srFrom {
+					if len(r.Hit) == 0 {
+						r.Hit = append(r.Hit, "storage-routing-unconverged-hotstart")
+					}
+					continue
+				}
 				if k1(desc.Outputs[k], t) {
 					if len(r.Hit) == 0 {
 						r.Hit = append(r.Hit, "sacramento-uh-buffer")
@@ -202,6 +227,9 @@ func check(c Case) (r pbt.Result) {
 			}
 		}
 		if !same(fin[j], st[j], tol) {
+			if srFrom <= T {
+				continue
+			}
 			r.Failf("%s splits %v: final state %d = %v uninterrupted, %v split", name, c.Splits, j, fin[j], st[j])
 			return
 		}
